@@ -34,7 +34,10 @@ const foptKey = "verif-key"
 
 func writerCfg(w *writer.Writer) map[string]any {
 	o := w.Options
-	c := map[string]any{"format": fmtName(o.Format), "indent": "nil", "noclobber": "nil", "fopt": ""}
+	c := map[string]any{"format": fmtName(o.Format), "indent": "nil", "noclobber": "nil", "fopt": "", "store": "other"}
+	if fsb, ok := w.Storage.(*storage.FileSystem); ok {
+		c["store"] = fsb.Options.Path
+	}
 	if o.RenderOptions != nil {
 		c["indent"] = fmt.Sprint(o.RenderOptions.Indent)
 	}
@@ -46,7 +49,6 @@ func writerCfg(w *writer.Writer) map[string]any {
 	}
 	return c
 }
-
 
 func readerCfg(r *reader.Reader) map[string]any {
 	o := r.Options
@@ -92,6 +94,8 @@ func sniffOutput(b []byte) (string, string) {
 	return "unknown", indent
 }
 
+var sharedCallOpts *writer.Options
+
 func configRun(args []string) error {
 	fs := flag.NewFlagSet("config-run", flag.ExitOnError)
 	out := fs.String("out", "", "trace file")
@@ -130,7 +134,7 @@ func configRun(args []string) error {
 		opts := obj(ev, "opts")
 		switch str(ev, "op") {
 		case "Reset":
-			ws, rs = nil, nil
+			ws, rs, sharedCallOpts = nil, nil, nil
 			w.write(ev)
 			return
 		case "NewWriter":
@@ -185,6 +189,34 @@ func configRun(args []string) error {
 			} else {
 				ev["used"], ev["usedindent"] = sniffOutput(buf.Bytes())
 			}
+		case "WriteShared":
+			// one per-call options value (no format of its own) reused for calls on different writers
+			i := integer(ev, "i") - 1
+			if i < 0 || i >= len(ws) {
+				return
+			}
+			if sharedCallOpts == nil {
+				sharedCallOpts = &writer.Options{}
+			}
+			var buf bytes.Buffer
+			if err := ws[i].WriteStreamWithOptions(tinyDoc(), nopCloser{&buf}, sharedCallOpts); err != nil {
+				ev["used"], ev["usedindent"] = "error", ""
+			} else {
+				ev["used"], ev["usedindent"] = sniffOutput(buf.Bytes())
+			}
+			ev["callfmt"] = ""
+			ev["sharedfmt"] = fmtName(sharedCallOpts.Format)
+			ev["op"] = "Write"
+			ev["shared"] = true
+		case "SetStorePath":
+			// configure the default backend of one writer: nobody else's backend may follow
+			i := integer(ev, "i") - 1
+			if i < 0 || i >= len(ws) {
+				return
+			}
+			if fsb, ok := ws[i].Storage.(*storage.FileSystem); ok {
+				fsb.Options.Path = str(ev, "path")
+			}
 		case "Read":
 			// parse a document of the given format through reader instance i with auto-detection
 			i := integer(ev, "i") - 1
@@ -207,9 +239,11 @@ func configRun(args []string) error {
 				return
 			}
 			dir, _ := os.MkdirTemp(tmp, "store-")
+			prev := ws[i].Storage
 			ws[i].Storage = &storage.FileSystem{Options: storage.FileSystemOptions{Path: dir}}
 			first := ws[i].Store(tinyDoc())
 			second := ws[i].Store(tinyDoc())
+			ws[i].Storage = prev
 			ev["first"], ev["second"] = okErr(first), okErr(second)
 		}
 		observe(ev)
@@ -264,7 +298,11 @@ func configRun(args []string) error {
 		exec(map[string]any{"op": "Reset", "sid": sid})
 		nw, nr := 0, 0
 		for j := 0; j < *length; j++ {
-			switch k := r.Intn(8); {
+			switch k := r.Intn(10); {
+			case k == 8 && nw > 0:
+				exec(map[string]any{"op": "WriteShared", "sid": sid, "i": 1 + r.Intn(nw)})
+			case k == 9 && nw > 0:
+				exec(map[string]any{"op": "SetStorePath", "sid": sid, "i": 1 + r.Intn(nw), "path": pick(r, []string{"/tmp/vh-nowhere-a", "/tmp/vh-nowhere-b"})})
 			case k <= 1 || nw == 0:
 				o, order := subset(wvals)
 				exec(map[string]any{"op": "NewWriter", "sid": sid, "opts": o, "order": order})
